@@ -113,4 +113,4 @@ def run_replay(pid, path, prog=None, extra_defs=(), key="witness"):
     rc, out, err, s = core.run([exe, wf], timeout=120, mem_gb=None, env=env)
     data["native_replay"] = dict(rc=rc, stdout=(out or "")[-3000:], stderr=(err or "")[-3000:])
     json.dump(data, open(path, "w"), indent=1, default=str)
-    return "REPRODUCED" in (out or "") or rc == 97
+    return "REPRODUCED" in (out or "") or rc in (1, 97)
